@@ -32,6 +32,22 @@ def gen_cases(tier, seed):
                       "_": 0,
                       "codec": ["UNCOMPRESSED", "SNAPPY", "GZIP", "ZSTD"][int(rng.integers(0, 4))],
                       "long_rows": bool(i % 7 == 0)})
+    # files with several nested columns of differing shape (levels must be derived per column path)
+    for i in range(60 if tier == "quick" else 1500):
+        ncol = int(rng.integers(2, 4))
+        subs = []
+        for j in range(ncol):
+            subs.append({"seed": int(rng.integers(0, 2 ** 31)), "kind": ["LIST", "LIST", "MAP"][int(rng.integers(0, 3))], "prim": PRIMS[int(rng.integers(0, len(PRIMS)))],
+                         "key_prim": ["utf8", "i32", "i64"][int(rng.integers(0, 3))],
+                         "top_optional": bool((i + j) % 2) if i % 3 else bool(rng.integers(0, 2)), "elem_optional": bool((i // 2 + j) % 2),
+                         "max_len": int([1, 3, 8][int(rng.integers(0, 3))]), "p_null_row": float([0, 0.3][int(rng.integers(0, 2))]),
+                         "p_null_elem": 0.3, "p_empty": float([0, 0.3][int(rng.integers(0, 2))]),
+                         "page_values": [int(x) for x in rng.integers(2, 25, 3)] if i % 2 else [10 ** 9],
+                         "page_version": 1, "use_dict": bool(rng.integers(0, 2)), "_": 0, "long_rows": False})
+        cases.append({"id": "NM/%d/%d" % (seed, i), "cols": subs, "row_groups": [int(rng.integers(1, 40)) for _ in range(int(rng.integers(1, 3)))],
+                      "codec": ["UNCOMPRESSED", "SNAPPY"][int(rng.integers(0, 2))],
+                      # top-level keys the known-finding predicates and features look at
+                      "kind": "MULTI", "page_version": 1})
     return cases
 
 
@@ -116,17 +132,30 @@ def run_case(case):
     res = {"features": [], "nontrivial": False, "failures": [], "counters": counters}
     path = C.fresh_path(".parq")
     try:
-        spec, rows = make(case)
+        subs = [dict(c, row_groups=case["row_groups"], codec=case["codec"]) for c in case["cols"]] if case.get("cols") else [case]
+        names = ["n"] if len(subs) == 1 else ["n%d" % j for j in range(len(subs))]
+        cols_spec, rows_by = [], []
+        for sub, name in zip(subs, names):
+            spec1, rows1 = make(sub)
+            spec1["columns"][0]["name"] = name
+            cols_spec.append(spec1["columns"][0])
+            rows_by.append(rows1)
+        spec = {"codec": case["codec"], "columns": cols_spec, "row_groups": list(case["row_groups"])}
         data, fmd = W.build_file(spec)
         info = R.read_file(data)
         if info.diags:
             raise RuntimeError("reference reader rejects the reference writer's nested file: %r" % info.diags[:2])
         # the reference's own re-assembly must give the rows back
-        if case["kind"] == "LIST":
-            back = R.assemble_nested(info.columns[("n", "list", "element")])
-            want_ref = [None if r is None else [None if e is None else R.convert_value(e, spec["columns"][0]["ptype"], R.logical_kind({"converted_type": spec["columns"][0]["converted"]})) for e in r] for r in rows]
-            if back != want_ref:
-                raise RuntimeError("reference reader re-assembles its own LIST file differently")
+        for sub, name, rows1, cs in zip(subs, names, rows_by, cols_spec):
+            if sub["kind"] == "LIST":
+                back = R.assemble_nested(info.columns[(name, "list", "element")])
+                want_ref = [None if r is None else [None if e is None else R.convert_value(e, cs["ptype"], R.logical_kind({"converted_type": cs["converted"]})) for e in r] for r in rows1]
+                if back != want_ref:
+                    raise RuntimeError("reference reader re-assembles its own LIST file differently")
+        counters["nested_columns"] = len(subs)
+        if len(subs) > 1:
+            counters["multi_nested_column_files"] = 1
+        case = dict(subs[0], id=case["id"], row_groups=case["row_groups"], codec=case["codec"], n_nested_columns=len(subs))
         with open(path, "wb") as f:
             f.write(data)
         ctx = {"nested": case["kind"], "prim": case["prim"], "top_optional": case["top_optional"], "elem_optional": case["elem_optional"],
@@ -147,51 +176,12 @@ def run_case(case):
             for v in asm.drain():
                 v.update(ctx)
                 res["failures"].append(v)
-        col = got["n"].tolist() if "n" in got else None
-        if col is None:
-            res["failures"].append({"kind": "column_missing", "got_columns": [str(c) for c in got.columns], **ctx})
-        elif len(col) != len(rows):
-            res["failures"].append({"kind": "row_count", "expected": len(rows), "got": len(col), **ctx})
-        else:
-            bad = []
-            for i, (e, g) in enumerate(zip(rows, col)):
-                if not same_row(e, g, case):
-                    bad.append(i)
-            if bad:
-                i = bad[0]
-                def nulls_moved(e, g):
-                    """the row lost trailing null elements, or gained leading null elements (those lost by the row before it)"""
-                    if e is None or g is None:
-                        return False
-                    if case["kind"] == "LIST":
-                        if not isinstance(g, list):
-                            return False
-                        amax = next((i_ for i_, v in enumerate(g) if v is not None), len(g))
-                        for a_ in range(0, amax + 1):        # a_ leading nulls gained, b_ trailing nulls lost
-                            b_ = len(e) - (len(g) - a_)
-                            if b_ < 0 or a_ + b_ == 0:
-                                continue
-                            if all(x is None for x in e[len(e) - b_:]) and same_row(e[:len(e) - b_], g[a_:], case):
-                                return True
-                        return False
-                    if not isinstance(g, dict):
-                        return False
-                    keys = [(k.decode("utf8") if isinstance(k, bytes) else k) for k, v in e]
-                    vals = [v for k, v in e]
-                    gk, gv = list(g.keys()), list(g.values())
-                    if gk != keys[:len(gk)]:
-                        return False
-                    if len(gk) < len(keys):      # values list was shorter: zip() cut the row
-                        return all(_same_elem(a, b, case["prim"]) for a, b in zip(vals, gv)) and all(v is None for v in vals[len(gk):])
-                    kmax = next((i_ for i_, v in enumerate(gv) if v is not None), len(gv))
-                    return any(all(_same_elem(a, b, case["prim"]) for a, b in zip([None] * k_ + vals, gv)) for k_ in range(1, kmax + 1))
-                all_tail = all(nulls_moved(rows[j], col[j]) for j in bad)
-                res["failures"].append({"kind": "rows_differ", "n_bad": len(bad), "n": len(rows), "first_bad": bad[:5],
-                                        "expected": repr(rows[i])[:160], "got": repr(col[i])[:160],
-                                        "expected_none_got_value": rows[i] is None and col[i] is not None,
-                                        "expected_value_got_none": rows[i] is not None and col[i] is None,
-                                        "only_trailing_null_elements_missing": all_tail, **ctx})
-            counters["rows_compared"] = len(rows)
+        for sub, name, rows in zip(subs, names, rows_by):
+            sctx = dict(ctx, nested=sub["kind"], prim=sub["prim"], top_optional=sub["top_optional"], elem_optional=sub["elem_optional"],
+                        page_version=sub["page_version"], use_dict=sub["use_dict"], single_page=sub["page_values"] == [10 ** 9],
+                        long_rows=sub["long_rows"], column=name)
+            _compare_column(sub, name, rows, got, sctx, res, counters)
+        rows = rows_by[0]
         res["outcome"] = "ok"
         res["nontrivial"] = len(rows) > 0
         res["features"] = _feat(case)
@@ -199,6 +189,63 @@ def run_case(case):
         return res
     finally:
         C.cleanup(path)
+
+
+def _compare_column(case, name, rows, got, ctx, res, counters):
+    col = got[name].tolist() if name in got else None
+    if col is None:
+        res["failures"].append({"kind": "column_missing", "got_columns": [str(c) for c in got.columns], **ctx})
+    elif len(col) != len(rows):
+        res["failures"].append({"kind": "row_count", "expected": len(rows), "got": len(col), **ctx})
+    else:
+        bad = []
+        for i, (e, g) in enumerate(zip(rows, col)):
+            if not same_row(e, g, case):
+                bad.append(i)
+        if bad:
+            i = bad[0]
+            def nulls_moved(e, g):
+                """the row lost trailing null elements, or gained leading null elements (those lost by the row before it)"""
+                if e is None or g is None:
+                    return False
+                if case["kind"] == "LIST":
+                    if not isinstance(g, list):
+                        return False
+                    amax = next((i_ for i_, v in enumerate(g) if v is not None), len(g))
+                    for a_ in range(0, amax + 1):        # a_ leading nulls gained, b_ trailing nulls lost
+                        b_ = len(e) - (len(g) - a_)
+                        if b_ < 0 or a_ + b_ == 0:
+                            continue
+                        if all(x is None for x in e[len(e) - b_:]) and same_row(e[:len(e) - b_], g[a_:], case):
+                            return True
+                    return False
+                if not isinstance(g, dict):
+                    return False
+                keys = [(k.decode("utf8") if isinstance(k, bytes) else k) for k, v in e]
+                vals = [v for k, v in e]
+                gk, gv = list(g.keys()), list(g.values())
+                if gk != keys[:len(gk)]:
+                    return False
+                # the value list lost b_ trailing nulls and / or gained a_ leading ones (lost by the row before); dict(zip(keys, values))
+                # then cuts the row to the shorter of the two lists
+                nn = [v is not None for v in vals]
+                bmax = len(vals) - (max(i_ for i_, x in enumerate(nn) if x) + 1 if any(nn) else 0)
+                amax = next((i_ for i_, v in enumerate(gv) if v is not None), len(gv))
+                for a_ in range(0, amax + 1):
+                    for b_ in range(0, bmax + 1):
+                        if a_ + b_ == 0:
+                            continue
+                        shifted = [None] * a_ + vals[:len(vals) - b_]
+                        if len(gk) == min(len(keys), len(shifted)) and all(_same_elem(x, y, case["prim"]) for x, y in zip(shifted, gv)):
+                            return True
+                return False
+            all_tail = all(nulls_moved(rows[j], col[j]) for j in bad)
+            res["failures"].append({"kind": "rows_differ", "n_bad": len(bad), "n": len(rows), "first_bad": bad[:5],
+                                    "expected": repr(rows[i])[:160], "got": repr(col[i])[:160],
+                                    "expected_none_got_value": rows[i] is None and col[i] is not None,
+                                    "expected_value_got_none": rows[i] is not None and col[i] is None,
+                                    "only_trailing_null_elements_missing": all_tail, **ctx})
+        counters["rows_compared"] = counters.get("rows_compared", 0) + len(rows)
 
 
 def same_row(e, g, case):
@@ -245,4 +292,4 @@ def _feat(case):
 
 
 def required(tier):
-    return {"rows_compared": 3000, "assemble_calls_checked": 500}
+    return {"rows_compared": 3000, "assemble_calls_checked": 500, "multi_nested_column_files": 20}
